@@ -18,6 +18,16 @@ Inductive res (A : Type) := Ok (a : A) | Raise (e : exn).
 Arguments Ok {A} a.
 Arguments Raise {A} e.
 
+Definition rret {A} (a : A) : res A := Ok a.
+Definition rbind {A B} (c : res A) (k : A -> res B) : res B :=
+  match c with Ok a => k a | Raise e => Raise e end.
+Definition rraise {A} (e : exn) : res A := Raise e.
+Declare Scope r_scope.
+Delimit Scope r_scope with R.
+Notation "x <~ c ;; k" := (rbind c (fun x => k))
+  (at level 61, c at next level, right associativity) : r_scope.
+Open Scope r_scope.
+
 (* Python values that flow through the modelled code. Strings are lists of code points. *)
 (* [PF z] stands for the text that utils.format_int(z) returns (kept symbolic). *)
 Inductive pv := PNone | PB (b : bool) | PI (z : Z) | PS (s : list Z) | PF (z : Z).
